@@ -9,7 +9,7 @@ import (
 
 // VxC20Diff runs both evaluators from equal stores in the same path and compares the results.
 func VxC20Diff() {
-	t := vxTemplates()[vxParam("TPL", 0)]
+	t := vxTemplateFor(vxParam("TPL", 0))
 	k := vxParam("K", 2)
 	naive := factstore.NewSimpleInMemoryStore()
 	semi := factstore.NewSimpleInMemoryStore()
@@ -18,6 +18,12 @@ func VxC20Diff() {
 	pi, err := vxAnalyze(t)
 	vxAssert(err == nil, "analysis-accepts-template")
 	err = EvalProgram(pi, &semi)
+	if t.gen && err != nil {
+		// unstratifiable generated program: both evaluators must refuse it
+		vxReach("both-evaluated")
+		vxAssert(EvalProgramNaive(t.rules, naive) != nil, "naive-rejects-what-seminaive-rejects")
+		return
+	}
 	vxAssert(err == nil, "seminaive-no-error")
 	err = EvalProgramNaive(t.rules, naive)
 	vxReach("both-evaluated")
